@@ -5,7 +5,7 @@ jobs=${1:-4}
 out=/tmp/wip/seed_regression.txt; mkdir -p /tmp/wip; : > $out
 run_one() {
   d=$1; prop=$(basename $d | cut -d- -f1)
-  r=$(VERIF_WORKERS=4 bash /verif/tools/try_seed.sh $d $prop 2>&1 | grep -E "^\[$prop\] exit|PATCH DOES NOT" | tail -1)
+  r=$(VERIF_MAX_WALL=1500 VERIF_WORKERS=4 bash /verif/tools/try_seed.sh $d $prop 2>&1 | grep -E "^\[$prop\] exit|PATCH DOES NOT" | tail -1)
   echo "$(basename $d) $r" >> /tmp/wip/seed_regression.txt
 }
 export -f run_one
